@@ -76,35 +76,15 @@ func main() {
 	var gaps []gap
 	total := 0
 
-	for _, sp := range specs {
-		files, _ := filepath.Glob(filepath.Join(*repo, sp.glob))
-		sort.Strings(files)
-		n := 0
-		for _, f := range files {
-			if strings.HasSuffix(f, "_test.go") {
-				continue
-			}
-			src, k, err := rewrite(f, sp)
-			if err != nil {
-				gaps = append(gaps, gap{f, "not rewritten: " + err.Error()})
-				continue
-			}
-			if k == 0 {
-				continue
-			}
-			n += k
-			rel, _ := filepath.Rel(*repo, f)
-			dst := filepath.Join(*out, "src", rel)
-			os.MkdirAll(filepath.Dir(dst), 0755)
-			if err := os.WriteFile(dst, src, 0644); err != nil {
-				panic(err)
-			}
-			overlay[f] = dst
-		}
-		if n < sp.expected {
-			gaps = append(gaps, gap{sp.glob, fmt.Sprintf("only %d of the expected >=%d call sites found", n, sp.expected)})
-		}
-		total += n
+	if ov, n, gs, err := typedRewrite(*repo, *out); err == nil {
+		overlay, total, gaps = ov, n, gs
+	} else {
+		// no type information (the tree does not type-check through go/packages): purely syntactic fallback,
+		// file-system steps only; goroutine, lock and map-iteration points are missing
+		gaps = append(gaps, gap{"(all)", "typed instrumentation unavailable: " + err.Error() + "; syntactic fallback (no goroutine/lock/map-order points)"})
+		os.RemoveAll(filepath.Join(*out, "src"))
+		os.MkdirAll(filepath.Join(*out, "src"), 0755)
+		overlay, total, gaps = syntacticRewrite(*repo, *out, gaps)
 	}
 
 	// virtual shim packages
@@ -125,6 +105,43 @@ func main() {
 	gb, _ := json.MarshalIndent(map[string]any{"rewrites": total, "gaps": gaps}, "", " ")
 	os.WriteFile(filepath.Join(*out, "gaps.json"), gb, 0644)
 	fmt.Printf("vinstr: %d call sites rewritten in %d files, %d gaps\n", total, len(overlay)-len(shims)-len(adds), len(gaps))
+}
+
+func syntacticRewrite(repo, out string, gaps []gap) (map[string]string, int, []gap) {
+	overlay := map[string]string{}
+	total := 0
+	for _, sp := range specs {
+		files, _ := filepath.Glob(filepath.Join(repo, sp.glob))
+		sort.Strings(files)
+		n := 0
+		for _, f := range files {
+			if strings.HasSuffix(f, "_test.go") {
+				continue
+			}
+			src, k, err := rewrite(f, sp)
+			if err != nil {
+				gaps = append(gaps, gap{f, "not rewritten: " + err.Error()})
+				continue
+			}
+			if k == 0 {
+				continue
+			}
+			n += k
+			rel, _ := filepath.Rel(repo, f)
+			dst := filepath.Join(out, "src", rel)
+			os.MkdirAll(filepath.Dir(dst), 0755)
+			if err := os.WriteFile(dst, src, 0644); err != nil {
+				panic(err)
+			}
+			overlay[f] = dst
+		}
+		if n < sp.expected {
+			gaps = append(gaps, gap{sp.glob, fmt.Sprintf("only %d of the expected >=%d call sites found", n, sp.expected)})
+		}
+		total += n
+	}
+
+	return overlay, total, gaps
 }
 
 func rewrite(path string, sp fileSpec) ([]byte, int, error) {
